@@ -4,33 +4,11 @@ import (
 	"fmt"
 
 	"verif/corpus"
-
-	"github.com/go-text/typesetting/font"
-	"github.com/go-text/typesetting/harfbuzz"
-	"github.com/go-text/typesetting/language"
 )
 
 func main() {
-	f := corpus.Get("ot/common/Estedad-VF.ttf")
-	ft := corpus.Fonts(f)[0]
-	face := font.NewFace(ft)
-	hf := harfbuzz.NewFont(face)
-	text := []rune{0x064E, 0x0628, 0x064E, 0x0626}
-	text2 := []rune{0x0628, 0x064E, 0x0626}
-	for k, cfg := range [][3]int{{0, 3, 3}, {0, 4, 3}, {1, 3, 2}} {
-		if k == 0 {
-			text, text2 = text2, text
-		} else if k == 1 {
-			text, text2 = text2, text
-		}
-		b := harfbuzz.NewBuffer()
-		b.Props = harfbuzz.SegmentProperties{Direction: harfbuzz.RightToLeft, Script: language.Arabic}
-		b.Flags = harfbuzz.ShappingOptions(cfg[2])
-		b.AddRunes(text, cfg[0], cfg[1])
-		b.Shape(hf, nil)
-		fmt.Println(cfg)
-		for i, in := range b.Info {
-			fmt.Printf("  %d=%d %+v\n", in.Glyph, in.Cluster, b.Pos[i])
-		}
+	fs := corpus.Files()
+	for i := 715; i < len(fs); i++ {
+		fmt.Println(i, fs[i].Name, len(fs[i].Data))
 	}
 }
